@@ -97,24 +97,25 @@ Step ==
   /\ UNCHANGED tid
 
 Residual == e.inq \o Cat([i \in 1..Len(e.pend) |-> e.pend[i].data])
-Caller == Tr.op.name \in {"colors", "namever", "cellsize", "kitty", "iterm2", "auto"}
+OpName == EffName(Tr.op)
+Caller == OpName \in {"colors", "namever", "cellsize", "kitty", "iterm2", "auto"}
 
 ParseClause(f, ref) ==
   LET t == TermOf(Tr) IN
-  CASE Tr.op.name = "colors" ->
+  CASE OpName = "colors" ->
          IF \/ (f.val.a # ref.a /\ ~UniformWidth(t.fg.c)) \/ (f.val.b # ref.b /\ ~UniformWidth(t.bg.c))
            THEN "parse:colour:mixed-width-components" ELSE "parse:colour:value"
-    [] Tr.op.name = "namever" -> "parse:name-version"
-    [] Tr.op.name = "cellsize" -> "parse:cell-size"
-    [] Tr.op.name = "auto" -> "support:auto-style"
-    [] OTHER -> "support:" \o Tr.op.name
+    [] OpName = "namever" -> "parse:name-version"
+    [] OpName = "cellsize" -> "parse:cell-size"
+    [] OpName = "auto" -> "support:auto-style"
+    [] OTHER -> "support:" \o OpName
 
 EndClause ==
   LET f == Tr.final
       v == Tr.env IN
   IF Tr.mode = "value" THEN
-    (IF f.val # ExpectedVal(Tr.op.name, Tr.cfg.enabled, Tr.cfg.swap, TermOf(Tr), v.win, v.ioctlFails)
-       THEN ParseClause(f, ExpectedVal(Tr.op.name, Tr.cfg.enabled, Tr.cfg.swap, TermOf(Tr), v.win, v.ioctlFails))
+    (IF f.val # ExpectedVal(OpName, Tr.cfg.enabled, Tr.cfg.swap, TermOf(Tr), v.win, v.ioctlFails)
+       THEN ParseClause(f, ExpectedVal(OpName, Tr.cfg.enabled, Tr.cfg.swap, TermOf(Tr), v.win, v.ioctlFails))
        ELSE "ok")
   ELSE IF f.status = "hung" THEN "c12:blocks-forever"
   ELSE IF m.status = "run" THEN "end:log-ends-before-the-operation"
@@ -124,7 +125,7 @@ EndClause ==
     THEN "env:final-state-mismatch"
   ELSE IF m.status = "returned" /\ ~Caller /\ (f.rnone # m.rnone \/ f.rb # m.rb) THEN "end:return-value"
   ELSE IF m.status = "returned" /\ Caller /\ f.val # m.val THEN ParseClause(f, m.val)
-  ELSE IF Tr.c12 /\ m.val # ExpectedVal(Tr.op.name, Tr.cfg.enabled, Tr.cfg.swap, TermOf(Tr), v.win, v.ioctlFails)
+  ELSE IF Tr.c12 /\ m.val # ExpectedVal(OpName, Tr.cfg.enabled, Tr.cfg.swap, TermOf(Tr), v.win, v.ioctlFails)
     THEN "c12:reported-not-what-was-replied"
   ELSE IF Tr.c12 /\ e.wlog # <<>> /\ f.residual # <<>> THEN "c12:reply-bytes-left-unread"
   ELSE IF Tr.c12 /\ f.elapsed > Max2(1, Len(e.wlog)) * Tr.cfg.qtmo + f.slack THEN "c12:elapsed-exceeds-timeout"
